@@ -202,8 +202,8 @@ PROPS["C25"] = dict(
         "trip with the role mirrored; (3) the 1 MiB bound decided from the length varint alone "
         "(1 MiB+1 rejected without payload, exactly 1 MiB admitted); (4) hostile header/length/payload bytes never "
         "panic and never over-deliver."),
-    bounds="decode: one-byte headers (symbolic, stream id < 16, whole frames; concrete header per flag for split frames), payload <= 1 (quick) / 3 (thorough) symbolic bytes, all split points of those frames; encode: concrete kind/role/id (one- and two-byte headers) and concrete payload; length prefixes {5, 1 MiB, 1 MiB+1, 2^32-1}; hostile: 2 + N <= 6 bytes; unwind 12",
-    outside="encoder and decoder chained in one harness (exhausts 48 GB in CBMC; composed through the specification bytes instead); decoding multi-byte header varints (stream ids >= 16) and split points inside a multi-byte varint; Multiplexed (substream bookkeeping, C24/C26)",
+    bounds="decode: one-byte headers (symbolic, stream id < 16, whole frames; concrete header per flag for split frames), payload <= 1 (quick) / 3 (thorough) symbolic bytes, all split points of those frames; encode: concrete kind/role/id (one- and two-byte headers) and concrete payload; length prefixes {5, 1 MiB, 1 MiB+1, 2^32-1, 2^32, 2^40+5}; two-byte header varints (ids 16, 300, 2047) split inside/after the header; hostile: 2 + N <= 6 bytes; unwind 12",
+    outside="encoder and decoder chained in one harness (exhausts 48 GB in CBMC; composed through the specification bytes instead); header varints of three and more bytes (stream ids >= 2048); Multiplexed (substream bookkeeping, C24/C26)",
     stubs=[TRACING, FMT], assumptions=[FORGET], hooks=["hook: libp2p_mplex::verif_hooks (FrameRepr mirror, CodecHook wrapping the real Codec)"],
 )
 
